@@ -12,6 +12,6 @@ CONSTANTS
   Closes = FALSE
   Bug = "delall"
 SYMMETRY Sym2
-INVARIANTS WaiterConsistent EventGoesToItsWaiter NoLostReadiness NoAddFailure RegisteredNothingWhenNoInterest
+INVARIANTS NoAddFailure
 PROPERTY TimeoutIsolated
 CHECK_DEADLOCK FALSE
